@@ -781,6 +781,16 @@ def r128(ctx, rep):
                                     pair = {norm(tst.left), norm(tst.comparators[0])}
                                     if pair == {norm(k), norm(kk)}:
                                         good = True
+                            if c[0] == "if-false" and isinstance(kk.value, int):
+                                # else branch of  k > c / k != c / k >= c + 1  for a counter that starts at c
+                                tst = c[1]
+                                if isinstance(tst, ast.Compare) and len(tst.ops) == 1 and norm(tst.left) == norm(k) and isinstance(tst.comparators[0], ast.Constant):
+                                    cv, op_ = tst.comparators[0].value, type(tst.ops[0]).__name__
+                                    lp_ = enclosing_loops(node, stop=mi.node)
+                                    from_c = bool(lp_) and isinstance(lp_[0], ast.For) and isinstance(lp_[0].iter, ast.Call) and getattr(lp_[0].iter.func, "id", None) == "range" \
+                                        and (len(lp_[0].iter.args) == 1 and kk.value == 0 or (len(lp_[0].iter.args) >= 2 and isinstance(lp_[0].iter.args[0], ast.Constant) and lp_[0].iter.args[0].value == kk.value))
+                                    if (op_, cv) in (("NotEq", kk.value),) or (from_c and (op_, cv) in (("Gt", kk.value), ("GtE", kk.value + 1))):
+                                        good = True
                         if not good and isinstance(k, ast.Constant) and k.value == kk.value:
                             good = True
                         if not good and isinstance(node.value, ast.Name) and _first_iteration_only(mi, node, node.value.id, k, kk, at):
